@@ -97,7 +97,7 @@ RetMatches(ret, h) ==
   /\ (Has(ret, "val") => Has(h, "val") /\ h.val = ret.val)
   /\ (Has(ret, "names") => Has(h, "names") /\ SeqSet(h.names) = ret.names)
 GateTag(e) == IF e.why = "special" THEN "special" ELSE CHOOSE x \in e.errs : TRUE
-Ctx(q) == (IF X.ifh THEN "ifh" ELSE "fd") \o "," \o (IF q.uid # 0 THEN "nonroot" ELSE "root") \o (IF X.via = "direct" THEN "" ELSE "," \o X.via)
+Ctx(q) == (IF X.ifh THEN "ifh" ELSE "fd") \o "," \o (IF q.uid # 0 THEN "nonroot" ELSE IF q.gid # 0 THEN "root-othergroup" ELSE "root") \o (IF X.via = "direct" THEN "" ELSE "," \o X.via)
 Creating == {"mkdir", "mknod", "symlink", "create"}
 \* times are compared only where the request set them explicitly (ATIME without ATIME_NOW, MTIME without MTIME_NOW),
 \* seconds and nanoseconds, in the reply and in the file as the walk right after the step found it
@@ -150,7 +150,7 @@ StepJudge(r) ==
            /\ e.kind = "gate" \/ ~stOK \/ Chk(fieldsOK, "C05|" \o q.op \o "|reply|" \o ReplyDiff(p, h) \o "|" \o cls, <<q, [x \in DOMAIN p \ {"ch", "rm", "och", "orm"} |-> p[x]], [x \in DOMAIN h \ {"ch", "rm", "och", "orm"} |-> h[x]]>>)
            /\ e.kind = "gate" \/ ~stOK \/ Chk(treeOK, "C05|" \o q.op \o "|tree", <<q, p.ch, h.ch, p.rm, h.rm>>)
       \* ownership of objects CREATED by the request (not of an existing file that CREATE merely opened)
-      /\ ~(q.op \in Creating /\ p.st = "OK" /\ q.uid # 0 /\ Has(p, "attr") /\ cal /\ Has(h, "attr") /\ h.attr.id \notin Ids(S)) \/ Chk(p.attr.uid = q.uid /\ p.attr.gid = q.gid, "C05|" \o q.op \o "|owner", <<q, p.attr>>)
+      /\ ~(q.op \in Creating /\ p.st = "OK" /\ (q.uid # 0 \/ q.gid # 0) /\ Has(p, "attr") /\ cal /\ Has(h, "attr") /\ h.attr.id \notin Ids(S)) \/ Chk(p.attr.uid = q.uid /\ p.attr.gid = q.gid, "C05|" \o q.op \o "|owner", <<q, p.attr>>)
       /\ ~((ExplA(q) \/ ExplM(q)) /\ h.st = "OK" /\ Has(h, "times")) \/ Cal(TimesAsSet(q, h.times) /\ (~Has(h, "ftimes") \/ TimesAsSet(q, h.ftimes)), "setattr|times", <<q.attr, h.times>>)
       /\ ~((ExplA(q) \/ ExplM(q)) /\ p.st = "OK" /\ Has(p, "times")) \/
            /\ Chk(TimesAsSet(q, p.times), "C05|setattr|times|reply|" \o TimesWhat(q, p.times) \o "|" \o cls, <<q.attr, p.times>>)
